@@ -17,7 +17,7 @@ if [ "$applied" = yes ]; then
   timeout 1500 /venv/bin/python -m pytest -q -p no:cacheprovider --timeout=900 --continue-on-collection-errors -n 4 -rf > /tmp/sw_${L}_tests.out 2>&1
   tests=$(tail -1 /tmp/sw_${L}_tests.out)
   grep '^FAILED' /tmp/sw_${L}_tests.out | sed "s/^FAILED //; s/ - .*//" | sed "s#/#.#g; s/\.py::\([A-Z][A-Za-z0-9_]*\)::/.\1::/; s/\.py::/::/" | sort > /tmp/sw_${L}_fail.txt
-  newfail=$(comm -23 /tmp/sw_${L}_fail.txt /tmp/w/baseline_fail.txt | tr '\n' ' ')
+  newfail=$(comm -23 /tmp/sw_${L}_fail.txt /verif/tools/baseline_fail.txt | tr '\n' ' ')
 fi
 tail -5 /tmp/sw_${L}_patched.out 2>/dev/null > /tmp/sw_${L}_ptail.txt
 /venv/bin/python - "$D" "$L" "$clean_rc" "$applied" "$patched_rc" "$tests" "$newfail" <<'E'
